@@ -4,7 +4,7 @@ From Coq Require Export NArith List Bool.
 Export ListNotations.
 Local Open Scope N_scope.
 
-Definition byte := N.
+Notation byte := N (only parsing).
 
 (* ---- decimal ---------------------------------------------------------- *)
 (* fmt::format("{}", int) for a non-negative int: minimal decimal. *)
